@@ -83,6 +83,7 @@ ASSUMPTIONS = [
 
 _READING = {}
 _FAKE_SDS = '/SDS'
+_USE_NAME = re.compile(r'^u[sbac][0-9]+(\.txt)?$')  # what `file uK.txt = ...` / `dir uK = ...` make in the act directory
 
 
 def _calibration_case(ctx):
@@ -232,6 +233,9 @@ def check(case) -> Verdict:
         labels.append('matrix:%s:%s:%s' % (ctx, found, 'ok' if ok else 'bad'))
     if val.error:
         labels.append('err:' + val.error['kind'])
+    stops = [ph for ph in ref.ITEM_PHASES for it in case['items'].get(ph, []) if it['k'] == 'stop']
+    if stops:
+        labels.append('stop-in:' + stops[0])
     if case.get('tag', '').startswith('matrix'):
         labels.append('mctx:%s:%s' % (case['tag'].split('/')[1], 'rejected' if val.error else 'accepted'))
 
@@ -267,8 +271,10 @@ def check(case) -> Verdict:
         observed_files = {}
         observed_dirs = {}
         observed_abs = {}
+        act_listing = []
         if sds is not None and out is not None:
             act_dir = os.path.join(sds, 'act')
+            act_listing = sorted(fn for fn in os.listdir(act_dir) if _USE_NAME.match(fn))
             for fn in out.files:
                 p = os.path.join(act_dir, fn)
                 try:
@@ -301,19 +307,44 @@ def check(case) -> Verdict:
         return bad('exception-or-timeout', exception=r.exception)
 
     soft = sorted(set(out.soft)) if out is not None else []
+    executed = 'PASS'
+    if out is not None and out.stop is not None:
+        # an instruction that fails when it is executed: FAIL / HARD_ERROR; [cleanup] is executed all the same
+        executed = out.stop['ident']
+        needs = ref.cleanup_needs(case, out.table) & set(out.skipped_defs)
+        labels.append('stop:cleanup-%s-a-skipped-definition' % ('needs' if needs else 'does-not-need'))
     if val.error is not None:
         expect = {'VALIDATION_ERROR'}
         labels.append('verdict:rejected')
     elif soft:
-        expect = {'VALIDATION_ERROR', 'PASS'}
+        expect = {'VALIDATION_ERROR', executed}
         if 'regex-invalid-sandbox-path' in soft or 'source-file' in soft:
             expect.add('HARD_ERROR')  # cannot be known before the sandbox exists / a file that is not there
         labels.append('verdict:either(value-validated-argument)')
         labels.extend('soft:' + s for s in soft)
     else:
-        expect = {'PASS'}
-        labels.append('verdict:accepted')
+        expect = {executed}
+        labels.append('verdict:accepted' if executed == 'PASS' else 'verdict:accepted-and-stopped')
 
+    m_kf2 = re.search(r'Name not in symbol table: "(\w+)"', r.err)
+    if (ident == 'INTERNAL_ERROR' and out is not None and m_kf2 and 'In [cleanup]' in r.err
+            and (out.stop is not None or 'HARD_ERROR' in expect)):
+        # defect model KF-C08-2: the execution-time symbol table holds only the definitions that were *executed*; after
+        # a failing instruction the rest up to [cleanup] is skipped, [cleanup] runs, and the first cleanup instruction
+        # that resolves a symbol whose definition was skipped crashes with KeyError (INTERNAL_ERROR).  The model
+        # predicts: the error is reported in [cleanup] and names a symbol that (a) the reference says is defined, (b)
+        # whose definition is not executed (it follows the failing instruction - where that is known: `stop` item -
+        # else: it is outside [cleanup] and an execution-time failure is possible), (c) that a cleanup instruction
+        # resolves, directly or through other symbols.
+        name = m_kf2.group(1)
+        not_executed = (set(out.skipped_defs) if out.stop is not None else
+                        set(n for _t, n, ph in ref.definitions(case) if ph != 'cleanup'))
+        if name in not_executed and name in ref.cleanup_needs(case, out.table):
+            d = dict(detail)
+            d['defect_model'] = ('definition of %s is not executed (an earlier instruction fails), [cleanup] resolves it'
+                                 % name)
+            return Verdict(ok=False, known='KF-C08-2', bucket='known/cleanup-needs-skipped-definition/INTERNAL_ERROR',
+                           detail=d, labels=labels + ['known:KF-C08-2'], nontrivial=nontrivial)
     if ident not in expect:
         cls = 'rejected' if val.error is not None else ('either' if soft else 'accepted')
         kind = val.error['kind'] if val.error else 'none'
@@ -334,78 +365,124 @@ def check(case) -> Verdict:
         return Verdict(True, nontrivial=nontrivial, labels=labels,
                        sample={'case_text': text, 'identifier': ident, 'first_error': val.error})
 
-    if ident == 'HARD_ERROR':
+    if ident == 'HARD_ERROR' and (out.stop is None or soft):
+        # an argument that is validated by value at execution (with a `stop` too: which of the two it was is not known)
         return Verdict(True, nontrivial=nontrivial, labels=labels + ['verdict:value-error-at-execution'],
                        sample={'case_text': text, 'identifier': ident})
-    # ---- accepted: everything ran, values as the reference says -------------------------------------
+    # ---- accepted: everything ran (up to a `stop`), values as the reference says ----------------------
     if sds is None:
         return bad('accepted/no-sandbox-reported')
-    if markers != [c08_render.MARK_FIRST, c08_render.MARK_LAST]:
-        return bad('accepted/not-every-phase-ran')
-    for fn, exp in sorted(out.files.items()):
-        if exp is ref.UNKNOWN:
-            labels.append('value-unknown')
-            if observed_files[fn].startswith('<missing'):
-                return bad('accepted/file-missing', file=fn)
-            continue
-        if observed_files[fn] != exp:
-            return bad('value/file-contents', file=fn, expected=exp, observed=observed_files[fn])
-    for dn, exp in sorted(out.dirs.items()):
-        obs = observed_dirs[dn]
-        if exp is ref.UNKNOWN:
-            labels.append('value-unknown')
-            continue
-        if obs == '<missing>':
-            return bad('accepted/dir-missing', dir=dn)
-        exp_cmp = {k: v for k, v in exp.items()}
-        for k, v in exp.items():
-            if v[0] == 'f' and v[1] is ref.UNKNOWN:
+    n_suite = c08_render._suite_counts(case)
+
+    def mismatch(o):
+        """-> None | (bucket, extra): first difference between the observations and the outcome o"""
+        exp_markers = [c08_render.MARK_FIRST, c08_render.MARK_LAST]
+        if o.stop is not None:
+            # the markers are the first / last instruction of [setup] / [cleanup] *of the case file*: the contents
+            # of the suite come before ([cleanup]: after) them
+            in_su = c08_render.in_suite(case, n_suite, o.stop['phase'], o.stop['index'])
+            if o.stop['phase'] == 'cleanup' and not in_su:
+                exp_markers = [c08_render.MARK_FIRST]
+            elif o.stop['phase'] == 'setup' and in_su:
+                exp_markers = [c08_render.MARK_LAST]
+        if (o.cleanup_cut is not None and not c08_render.in_suite(case, n_suite, 'cleanup', o.cleanup_cut)
+                and c08_render.MARK_LAST in exp_markers):
+            exp_markers.remove(c08_render.MARK_LAST)
+        if markers != exp_markers:
+            return 'accepted/not-every-phase-ran', dict(expected_markers=exp_markers)
+        # files / directories of instructions that are not executed are not there
+        for fn in sorted(set(observed_files) - set(o.files)):
+            if not observed_files[fn].startswith('<missing'):
+                return 'value/file-of-skipped-instruction', dict(file=fn, observed=observed_files[fn])
+        for dn in sorted(set(observed_dirs) - set(o.dirs)):
+            if observed_dirs[dn] != '<missing>':
+                return 'value/dir-of-skipped-instruction', dict(dir=dn)
+        for p in sorted(set(observed_abs) - set(o.abs_files) - set(o.abs_dirs)):
+            if not observed_abs[p].startswith('<missing'):
+                return 'value/path-of-skipped-instruction', dict(path=p)
+        if sorted(fn for fn in act_listing if fn not in o.files and fn not in o.dirs):
+            return 'value/unexpected-file-in-act-dir', dict(listing=act_listing, expected=sorted(set(o.files) | set(o.dirs)))
+        for fn, exp in sorted(o.files.items()):
+            if exp is ref.UNKNOWN:
                 labels.append('value-unknown')
-                if k in obs and obs[k][0] == 'f':
-                    exp_cmp[k] = obs[k]
-        if obs != exp_cmp:
-            return bad('value/dir-contents', dir=dn, expected=exp_cmp, observed=obs)
-    for p, exp in sorted(out.abs_files.items()):
-        if exp is ref.UNKNOWN:
-            labels.append('value-unknown')
-            if observed_abs[p].startswith('<missing'):
-                return bad('accepted/file-at-path-missing', path=p)
-        elif observed_abs[p] != exp:
-            return bad('value/file-at-path', path=p, expected=exp, observed=observed_abs[p])
-    for p in out.abs_dirs:
-        if observed_abs[p] != '<dir>':
-            return bad('value/dir-at-path', path=p, observed=observed_abs[p])
-    if out.unknown_probes:
-        labels.append('invocations-unknown')
-    for name in sorted((set(out.events) | set(observed_events)) - out.unknown_probes):
-        exp_l = out.events.get(name, [])
-        obs_l = observed_events.get(name, [])
-        if len(exp_l) != len(obs_l):
-            return bad('value/probe-invocations', probe=name, expected=exp_l, observed=obs_l)
-        for e, o in zip(exp_l, obs_l):
-            if e['argv'] != o['argv']:
-                return bad('value/probe-argv' + ('-act' if name == 'act' else ''), probe=name,
-                           expected=e['argv'], observed=o['argv'])
-            if e['stdin'] is ref.UNKNOWN:
-                labels.append('value-unknown')
-            elif e['stdin'] != o['stdin']:
-                return bad('value/probe-stdin', probe=name, expected=e['stdin'], observed=o['stdin'])
-            if out.unknown_env:
+                if observed_files[fn].startswith('<missing'):
+                    return 'accepted/file-missing', dict(file=fn)
+                continue
+            if observed_files[fn] != exp:
+                return 'value/file-contents', dict(file=fn, expected=exp, observed=observed_files[fn])
+        for dn, exp in sorted(o.dirs.items()):
+            obs = observed_dirs[dn]
+            if exp is ref.UNKNOWN:
                 labels.append('value-unknown')
                 continue
-            if sorted(e['env']) != sorted(o['env']):
-                return bad('value/probe-env-names', probe=name, expected=e['env'], observed=o['env'])
-            for k, v in sorted(e['env'].items()):
-                if v is ref.UNKNOWN:
+            if obs == '<missing>':
+                return 'accepted/dir-missing', dict(dir=dn)
+            exp_cmp = {k: v for k, v in exp.items()}
+            for k, v in exp.items():
+                if v[0] == 'f' and v[1] is ref.UNKNOWN:
                     labels.append('value-unknown')
-                elif v != o['env'][k]:
-                    return bad('value/probe-env', probe=name, var=k, expected=v, observed=o['env'][k])
-    for name in sorted((set(out.shell) | set(observed_shell)) - out.unknown_probes):
-        exp = out.shell.get(name, '')
-        if exp is ref.UNKNOWN:
-            labels.append('value-unknown')
-        elif exp != observed_shell.get(name, ''):
-            return bad('value/shell-command-line', output=name, expected=exp, observed=observed_shell.get(name, ''))
+                    if k in obs and obs[k][0] == 'f':
+                        exp_cmp[k] = obs[k]
+            if obs != exp_cmp:
+                return 'value/dir-contents', dict(dir=dn, expected=exp_cmp, observed=obs)
+        for p, exp in sorted(o.abs_files.items()):
+            if exp is ref.UNKNOWN:
+                labels.append('value-unknown')
+                if observed_abs[p].startswith('<missing'):
+                    return 'accepted/file-at-path-missing', dict(path=p)
+            elif observed_abs[p] != exp:
+                return 'value/file-at-path', dict(path=p, expected=exp, observed=observed_abs[p])
+        for p in o.abs_dirs:
+            if observed_abs[p] != '<dir>':
+                return 'value/dir-at-path', dict(path=p, observed=observed_abs[p])
+        if o.unknown_probes:
+            labels.append('invocations-unknown')
+        for name in sorted((set(o.events) | set(observed_events)) - o.unknown_probes):
+            exp_l = o.events.get(name, [])
+            obs_l = observed_events.get(name, [])
+            if len(exp_l) != len(obs_l):
+                return 'value/probe-invocations', dict(probe=name, expected=exp_l, observed=obs_l)
+            for e, ob in zip(exp_l, obs_l):
+                if e['argv'] != ob['argv']:
+                    return ('value/probe-argv' + ('-act' if name == 'act' else ''),
+                            dict(probe=name, expected=e['argv'], observed=ob['argv']))
+                if e['stdin'] is ref.UNKNOWN:
+                    labels.append('value-unknown')
+                elif e['stdin'] != ob['stdin']:
+                    return 'value/probe-stdin', dict(probe=name, expected=e['stdin'], observed=ob['stdin'])
+                if o.unknown_env:
+                    labels.append('value-unknown')
+                    continue
+                if sorted(e['env']) != sorted(ob['env']):
+                    return 'value/probe-env-names', dict(probe=name, expected=e['env'], observed=ob['env'])
+                for k, v in sorted(e['env'].items()):
+                    if v is ref.UNKNOWN:
+                        labels.append('value-unknown')
+                    elif v != ob['env'][k]:
+                        return 'value/probe-env', dict(probe=name, var=k, expected=v, observed=ob['env'][k])
+        for name in sorted((set(o.shell) | set(observed_shell)) - o.unknown_probes):
+            exp = o.shell.get(name, '')
+            if exp is ref.UNKNOWN:
+                labels.append('value-unknown')
+            elif exp != observed_shell.get(name, ''):
+                return 'value/shell-command-line', dict(output=name, expected=exp, observed=observed_shell.get(name, ''))
+        return None
+
+    diff = mismatch(out)
+    if diff is not None:
+        cut = (ref.first_cleanup_item_needing(case, out.table, set(out.skipped_defs))
+               if (out.stop is not None and out.stop['phase'] != 'cleanup') else None)
+        if cut is not None and mismatch(ref.evaluate(case, roots, rd, cleanup_cut=cut)) is None:
+            # defect model KF-C08-2, second form: the crash of the cleanup instruction is not reported (the earlier
+            # failure is), but [cleanup] ends there: the observations equal those of the case with [cleanup] given up
+            # at the first instruction that resolves a symbol whose definition was skipped
+            d = dict(detail)
+            d['defect_model'] = ('[cleanup] is given up at its item %d, the first one that resolves a symbol whose '
+                                 'definition was not executed (%s); the failure is not reported'
+                                 % (cut, sorted(out.skipped_defs)))
+            return Verdict(ok=False, known='KF-C08-2', bucket='known/cleanup-needs-skipped-definition/silent',
+                           detail=d, labels=labels + ['known:KF-C08-2'], nontrivial=nontrivial)
+        return bad(diff[0], **diff[1])
     n_obs = (len(out.files) + len(out.dirs) + sum(len(v) for v in out.events.values()) + len(out.shell)
              + len(out.abs_files) + len(out.abs_dirs))
     labels.append('observations:%s' % (n_obs if n_obs < 4 else '4+'))
